@@ -518,6 +518,9 @@ class Optic:
         rays = self.ray_generator.generate_rays(Hx, Hy, Px, Py, wavelength)
         rays = self.surface_group.trace(rays)
 
+        if isinstance(rays, PolarizedRays):
+            rays.update_intensity(self.polarization_state)
+
         # update intensity
         self.image_surface.intensity = np.copy(np.atleast_1d(rays.i))
 
